@@ -19,7 +19,7 @@
 From Coq Require Import List ZArith Bool.
 From SVC Require Import Base.AMap Base.Res Base.Dec Model.Types Model.Pricing
   Model.Handlers Model.EndBlock Model.Step Proofs.Inv Proofs.TraceLemmas Proofs.TraceSettle
-  Proofs.TraceMoney.
+  Proofs.TraceMoney Proofs.DecProofs Proofs.GapC02 Proofs.GapC02b.
 Import ListNotations.
 Open Scope Z_scope.
 
@@ -161,3 +161,73 @@ Theorem C02_transfer_moves : forall cfg s f t amt s',
   log s' = log s /\ forall x, bal s' x = bal s x - into (User f) x amt + into (User t) x amt.
 Proof. exact TraceMoney.transfer_moves. Qed.
 Print Assumptions C02_transfer_moves.
+
+(* ------------------------------------------------------------------ *)
+(* gap closing (audit C02, section (d)) *)
+
+(* WHICH settlement an accepted response gets is decided by the output: a non-empty output that
+   fails the schema (out <> 0, out_valid = false) is refunded in full to the consumer of the
+   context (and the binding is slashed, C04_respond_slash_iff), nothing is earned; a well-formed
+   or absent output pays tax = mul_trunc fee rate to the fee collector and adds fee - tax to the
+   earnings of the responding provider, no ordinary account moves.  d = the events appended *)
+Theorem C02_respond_settles : forall cfg s r who code out ov ok s',
+  Inv cfg s -> handle cfg s (ORespond r who code out ov ok) = Ok s' ->
+  exists q rc d,
+    get r (reqs s) = Some q /\ get (rid_ctx r) (ctxs s) = Some rc
+    /\ who = r_prov q /\ r_active q = true /\ log s' = d ++ log s
+    /\ if negb (out =? 0) && negb ov
+       then (exists amt, tr r d = [EvRespond r; EvRefund r (c_cons rc) (r_fee q);
+                                   EvSlash r (c_svc rc, who) amt])
+            /\ bal s' (User (c_cons rc)) = bal s (User (c_cons rc)) + r_fee q
+            /\ (forall a, a <> c_cons rc -> bal s' (User a) = bal s (User a))
+            /\ bal s' Escrow = bal s Escrow - r_fee q
+            /\ bal s' FeeColl = bal s FeeColl
+            /\ earned s' = earned s /\ own_earned s' = own_earned s
+       else tr r d = [EvRespond r; EvEarn r who (r_fee q - mul_trunc (r_fee q) (p_tax cfg));
+                      EvTax r (mul_trunc (r_fee q) (p_tax cfg))]
+            /\ 0 <= mul_trunc (r_fee q) (p_tax cfg) <= r_fee q
+            /\ bal s' FeeColl = bal s FeeColl + mul_trunc (r_fee q) (p_tax cfg)
+            /\ bal s' Escrow = bal s Escrow - mul_trunc (r_fee q) (p_tax cfg)
+            /\ bal s' Deposit = bal s Deposit
+            /\ (forall a, bal s' (User a) = bal s (User a))
+            /\ get0 who (earned s') = get0 who (earned s) + (r_fee q - mul_trunc (r_fee q) (p_tax cfg))
+            /\ (forall p, p <> who -> get0 p (earned s') = get0 p (earned s)).
+Proof. exact GapC02.respond_settles. Qed.
+Print Assumptions C02_respond_settles.
+
+(* liveness: a request still active when the EndBlock of its expiry height runs is settled in
+   that EndBlock: it gets its EvExpire among the events d appended by the block, its record is
+   gone afterwards (so no later settlement is possible: C02_request_trace, case None), and the
+   count vector (#issue, #respond, #earn, #tax, #refund, #slash, #expire) is the one of a
+   time-out: in super mode (fee 0) nothing moves, otherwise the whole fee is refunded to the
+   consumer of the context and the binding of the request's provider is slashed *)
+Theorem C02_settled_at_expiry : forall cfg s dt r q rc,
+  wf_cfg cfg -> Reach cfg s -> wf_op s (OEndBlock dt) ->
+  get r (reqs s) = Some q -> r_active q = true -> r_exp q = height s ->
+  get (rid_ctx r) (ctxs s) = Some rc ->
+  let s' := end_block cfg s dt in
+  Reach cfg s'
+  /\ get r (reqs s') = None
+  /\ In (EvIssue r (r_prov q) (c_cons rc) (r_fee q)) (log s)
+  /\ (exists d, log s' = d ++ log s /\ In (EvExpire r) d)
+  /\ (c_super rc = true -> r_fee q = 0 /\ counts r (log s') = (1, 0, 0, 0, 0, 0, 1)%nat)
+  /\ (c_super rc = false ->
+        0 < r_fee q /\ counts r (log s') = (1, 0, 0, 0, 1, 1, 1)%nat
+        /\ In (EvRefund r (c_cons rc) (r_fee q)) (log s')
+        /\ exists amt, In (EvSlash r (c_svc rc, r_prov q) amt) (log s')).
+Proof. exact GapC02b.timeout_settled. Qed.
+Print Assumptions C02_settled_at_expiry.
+
+(* a stored request is never overdue: its expiry height is not below the current height and its
+   context is queued for expiry at exactly that height; with C02_settled_at_expiry: no request
+   stays unsettled past the EndBlock of its expiry height *)
+Theorem C02_active_not_overdue : forall cfg s r q,
+  wf_cfg cfg -> Reach cfg s -> get r (reqs s) = Some q ->
+  height s <= r_exp q /\ In (r_exp q, rid_ctx r) (expq s).
+Proof. exact GapC02b.active_not_overdue. Qed.
+Print Assumptions C02_active_not_overdue.
+
+(* the tax is the floor of fee x rate (rates are 18-digit fixed point, PREC = 10^18) *)
+Theorem C02_tax_is_floor : forall n r, 0 <= n -> 0 <= r -> mul_trunc n r = (n * r) / PREC.
+Proof. exact DecProofs.mul_trunc_floor. Qed.
+Print Assumptions C02_tax_is_floor.
